@@ -60,11 +60,12 @@ static bxdecay0::event random_event(Rng & r, int maxpart, bool hostile)
     e.set_generator(lab);
   }
   e.set_time(hostile ? hostile_double(r, true) : r.uniform() * 1e4);
-  static const bxdecay0::particle_code codes[] = {bxdecay0::GAMMA, bxdecay0::POSITRON, bxdecay0::ELECTRON, bxdecay0::ALPHA};
+  // all six species of the record format (the generators emit four of them; neutrons and protons come from other producers of such files)
+  static const bxdecay0::particle_code codes[] = {bxdecay0::GAMMA, bxdecay0::POSITRON, bxdecay0::ELECTRON, bxdecay0::ALPHA, bxdecay0::NEUTRON, bxdecay0::PROTON};
   int n = (int)r.below(maxpart + 1);
   for (int i = 0; i < n; i++) {
     bxdecay0::particle p;
-    p.set_code(codes[r.below(4)]);
+    p.set_code(codes[r.below(6)]);
     // particle times may be negative (an event re-referenced to one of its later particles with shift_particles_time)
     p.set_time(hostile ? hostile_double(r, r.below(3) != 0) : r.uniform() - (r.below(4) == 0 ? 0.5 : 0.0));
     if (hostile) p.set_momentum(hostile_double(r, false), hostile_double(r, false), hostile_double(r, false));
@@ -77,7 +78,7 @@ static bxdecay0::event random_event(Rng & r, int maxpart, bool hostile)
 // exactly what bxdecay0-run writes per event
 static void write_record(std::ostream & out, int id, const bxdecay0::event & e)
 {
-  out << id << ' ';
+  out << std::to_string(id) << ' ';
   e.store(out, bxdecay0::event::STORE_EVENT_TIME);
   out << '\n';
 }
@@ -140,6 +141,14 @@ int main(int argc, char ** argv)
       // a third at a lower one, a third do what bxdecay0-run does
       if (it % 3 == 0) f.precision(15);
       else if (it % 3 == 1) f.precision(3);
+      // ... and it writes numbers: whatever notation and base the caller's stream was left in by earlier output (a table in fixed
+      // notation, addresses in hexadecimal), the record holds decimal numbers with 15 significant digits
+      switch (it % 11) {
+      case 3: f << std::fixed; break;
+      case 5: f << std::hex; break;
+      case 7: f << std::scientific << std::uppercase; break;
+      case 9: f << std::showpos << std::showpoint; break;
+      }
       for (int i = 0; i < nev; i++) {
         evs.push_back(random_event(r, it % 50 == 0 ? 100 : 12, hostile));
         write_record(f, i, evs.back());
